@@ -13,6 +13,10 @@ CHECKS = {
          "Every state reachable by <= L postings of `t1 == t2` / `t1 != t2` over the term alphabet is compared, on every transition, with the order-free set of posted goals by tabulating ground instances over a finite universe; every distinct state's history is re-run as a public query under every hash-order schedule with <= d deviations; programs with conde and hidden fresh variables are compared with reference paths.",
          "Finite universe (constants, fresh atoms, short lists): can miss but never invent a difference; L=2,d=1 quick / L=3,d=2 thorough.",
          "4/C02"),
+ "C03": ("bounded-exhaustive reification programs, structural oracle on every answer (E3)",
+         "Query variables bound to 13 term shapes (lists, improper/nested lists, repeated variables, five compound kinds, nested and recursive compounds) x a second query variable sharing variables x 12 constraint sets (incl. hidden-variable and multi-binding disequalities) x statement orders: every answer variable is a reified `_`, the tuple equals the reference substitution up to renaming, reported constraints mention only the answer's variables, and LResult::constraints() returns every reported constraint with an operand occurring anywhere in the result term.",
+         "constraints(): a constraint is required when one of its operands (left-hand side, or a right-hand side that is itself a variable) occurs in the term; constraints merely mentioning a variable deeper in a right-hand side are allowed but not required.",
+         "4/C03"),
  "C04": ("bounded-exhaustive programs executed in every permutation of every conjunction/disjunction x schedules (E3 x E2)",
          "Pure programs (literals, conde 2-3 arms, nested conde, Disj chains, fresh with hidden variables), FD programs (T1/T2) and mixed conde+FD programs are executed in every permutation of every conjunction, conde arm list and arm body (<= 4 children; simultaneous permutations capped); answer multisets (instance sets over a finite universe / FD tuples) agree across permutations and with the order-free reference or brute force; FD variants also under hash-order schedules.",
          "Permutation products capped at 200/120 variants per program; finite universe for instance sets.",
@@ -57,6 +61,10 @@ CHECKS = {
          "plusz/timesz x every operand pattern over three variables and {-2,0,1,3} (all aliasings) x every groundness pattern x every statement order, and chains of two constraints: answers equal the integer-arithmetic closure (ground equations hold; two ground operands determine the third, fail, or leave it constrained when every integer works); no panic.",
          "Values in {-2,0,1,3}; aliased operands with fewer than two ground positions are judged for soundness only.",
          "4/C19"),
+ "C20": ("explicit-state BFS on compound terms and on their tagged-list twins + twin execution of reification/FD programs (E1 + E3)",
+         "(a) the C01 exploration over a universe with named, tuple-like, nested, recursive #[compound] structs, Rust tuples and Option, run on the compound terms and on the isomorphic tagged-list encoding, each transition against the reference unifier; (b) the C03 programs and the FD labeling programs with compound-shaped answers executed as written and with every constructor encoded as a tagged list: decoded answers (terms and reported constraints) coincide.",
+         "Option is read as the library converts it (None = [], Some(x) = x); compound values are built through the generated Rust types.",
+         "4/C20"),
  "C22": ("bounded-exhaustive statement sequences with an instrumented User type and per-statement probes x schedules (E3 x E2)",
          "All ordered sequences of 2-3 == / != statements (incl. subsuming and multi-binding disequalities), sequences with a two-arm conde, and FD programs run with a User type counting with_constraint/take_constraint and logging process_extension; probes before/after every statement and every answer state: with - take == stored constraints; each successful == triggers process_extension once with exactly unify_rec's new bindings; the statements seen by an answer's user state form one program path (per-branch cloning).",
          "Statement alphabet of 10 tree + 7 FD statements; d=1 quick / 2 thorough on the store iteration sites.",
